@@ -46,6 +46,7 @@ type RSFault struct {
 	AtMs   int    `json:"at_ms"`
 	ForMs  int    `json:"for_ms"`
 	DownMs int    `json:"down_ms"`
+	Group  uint   `json:"group,omitempty"` // split: bit i set = member i is on the far side
 }
 
 // RSRogue: a client request sent to an arbitrary member, whatever its state at that moment (C10).
@@ -102,6 +103,26 @@ func genReplset(prop string, seed uint64, tier string) *Scenario {
 		}
 		body.Faults = append(body.Faults, f)
 	}
+	{
+		// drawn from generators of their own: a network split into two groups (often right after the
+		// leader was killed), and member mixes with several arbiters
+		sp := ssched.Sub(seed, "split")
+		if n >= 4 && sp.Intn(4) == 0 {
+			for i := n - 2; i < n; i++ {
+				body.Members[i].Arbiter, body.Members[i].Weight = 1, 0
+			}
+		}
+		if sp.Intn(3) == 0 {
+			f := RSFault{Kind: "split", AtMs: 3000 + sp.Intn(20000), ForMs: 3000 + sp.Intn(15000), Group: uint(1 + sp.Intn(1<<uint(n)-2))}
+			if k := sp.Intn(len(body.Faults)); body.Faults[k].Kind == "kill_leader" && sp.Intn(3) > 0 {
+				f.AtMs = body.Faults[k].AtMs + sp.Intn(300)
+				if f.ForMs > body.Faults[k].DownMs {
+					body.Faults[k].DownMs = f.ForMs + sp.Intn(3000) // the old leader stays down while the rest is split
+				}
+			}
+			body.Faults = append(body.Faults, f)
+		}
+	}
 	if r.Intn(2) == 0 {
 		for i, k := 0, 2+r.Intn(12); i < k; i++ {
 			v := 0
@@ -154,6 +175,9 @@ func genReplset(prop string, seed uint64, tier string) *Scenario {
 }
 
 type rsMemberRun struct {
+	committedSinceBoot bool // the member's committed number has changed since its last start
+	seenSinceBoot      bool
+	everLeader         bool // was leader at some moment of the run (any incarnation)
 	leaderSpell int // counts the member's spells as leader
 
 	idx   int
@@ -190,6 +214,7 @@ func runReplset(w *World) {
 		cfg.DataDir, cfg.Port = m.dir, m.port
 		m.node = w.boot(id, cfg)
 		m.lastP, m.lastC, m.wasLd, m.seenP, m.seenC = 0, 0, false, 0, 0
+		m.committedSinceBoot, m.seenSinceBoot = false, false
 	}
 	live := func(m *rsMemberRun) bool {
 		return m.node != nil && m.node.up && m.node.sl != nil && m.node.sl.arbiterManager != nil && !ssched.NodeDead(m.node.id)
@@ -230,8 +255,42 @@ func runReplset(w *World) {
 	}
 	// invariants, re-read after every accepted transport write
 	winners := map[uint64]string{}
+	majorityFor := map[uint64]string{} // committed number -> host a majority of the members has committed it for
+	var noteCommit func(c uint64, host string, idx int)
+	cfgCommit := uint64(0)
+	usedNumber := map[string]bool{}
+	committedBy := map[string]map[int]bool{} // "committed number/host" -> members seen to have committed that number for that host
+	noteCommit = func(c uint64, host string, idx int) {
+		k := fmt.Sprintf("%d/%s", c, host)
+		if committedBy[k] == nil {
+			committedBy[k] = map[int]bool{}
+		}
+		if committedBy[k][idx] {
+			return
+		}
+		committedBy[k][idx] = true
+		// two candidacies cannot both gather a commit majority: a committed number has a majority for
+		// one host at most (a member commits a number once)
+		if len(committedBy[k]) >= len(ms)/2+1 {
+			if prev, ok := majorityFor[c]; ok && prev != host {
+				w.violate("C12", "two_commit_majorities_for_one_number", "committed number %d has been committed by a majority of the members for %s and by a majority for %s", c, prev, host)
+			}
+			majorityFor[c] = host
+			w.probe("commit_majorities_observed")
+		}
+	}
 	armed := false // the configuration phase (members being added, told to quit and re-added) is not an election
 	check := func() {
+		// what each member has committed, and for whom, is noted from the very start (the numbers of
+		// the configuration phase stay in force afterwards)
+		for _, m := range ms {
+			if m == nil || !live(m) {
+				continue
+			}
+			if v := m.node.sl.arbiterManager.voter; v.commitId != 0 && v.proposalHost != "" {
+				noteCommit(v.commitId, v.proposalHost, m.idx)
+			}
+		}
 		if !armed {
 			return
 		}
@@ -247,10 +306,16 @@ func runReplset(w *World) {
 			if v.commitId < m.lastC {
 				w.violate("C12", "commit_number_decreased", "member %s (node n%d): committed number went from %d to %d", m.host, m.node.id, m.lastC, v.commitId)
 			}
+			if v.commitId != m.lastC && m.seenSinceBoot {
+				m.committedSinceBoot = true
+			}
+			m.seenSinceBoot = true
 			m.lastP, m.lastC = v.proposalId, v.commitId
 			if v.commitId != 0 && v.proposalHost != "" {
 				if prev, ok := winners[v.commitId]; ok && prev != v.proposalHost {
-					w.violate("C12", "two_winners_for_one_commit_number", "committed number %d names %s on one member and %s on member %s", v.commitId, prev, v.proposalHost, m.host)
+					// two candidates that drew the same number have each committed it for their own choice on
+					// their own acceptor: harmless as long as only one of them finds a majority (noteCommit)
+					w.probe("one_number_two_names")
 				}
 				winners[v.commitId] = v.proposalHost
 				w.probe("commits_observed")
@@ -260,6 +325,32 @@ func runReplset(w *World) {
 				m.leaderSpell++
 			}
 			if isLd && !m.wasLd {
+				// a new leader stands on a commit majority: more than half of all members have committed
+				// its number for it (counted from what each member was seen to commit, whatever the
+				// member's own idea of a majority is)
+				// (the number is the one of the election that named it, which the new leader's own acceptor
+				// may have refused: any number no earlier spell of this member has stood on)
+				cnt, need, found := len(committedBy[fmt.Sprintf("%d/%s", v.commitId, m.host)]), len(ms)/2+1, false
+				for k, by := range committedBy {
+					var c uint64
+					var h string
+					if _, err := fmt.Sscanf(k, "%d/%s", &c, &h); err != nil || h != m.host || c <= cfgCommit || usedNumber[k] {
+						continue
+					}
+					if len(by) >= need {
+						found = true
+						usedNumber[k] = true
+					}
+				}
+				if !found && v.commitId > cfgCommit {
+					class := "leader_without_commit_majority"
+					if m.inc > 1 && m.everLeader {
+						// F48: a former leader that restarted from its saved metadata
+						class = "restarted_leader_without_commit_majority"
+					}
+					w.violate("C12", class, "member %s (node n%d, start %d) became leader with committed number %d: %d of %d members have committed that number for it (a majority is %d) and no other number that a majority has committed for it is left unused by its earlier spells as leader", m.host, m.node.id, m.inc, v.commitId, cnt, len(ms), need)
+				}
+				w.probe("leader_majorities_checked")
 				w.probe("leaders_elected")
 				w.logf("LEADER %s (node n%d) commit %d weight %d arbiter %d", m.host, m.node.id, v.commitId, m.spec.Weight, m.spec.Arbiter)
 				if m.spec.Arbiter != 0 || m.spec.Weight == 0 {
@@ -267,6 +358,9 @@ func runReplset(w *World) {
 				}
 			}
 			m.wasLd = isLd
+			if isLd {
+				m.everLeader = true
+			}
 		}
 		for i, a := range ms {
 			for _, b := range ms[i+1:] {
@@ -311,6 +405,11 @@ func runReplset(w *World) {
 		}
 		v := m.node.sl.arbiterManager.voter
 		p, c := v.proposalId, v.commitId
+		if mu == v.glock && c != 0 && v.proposalHost != "" {
+			// what the member has committed, and for whom, as its acceptor leaves it (a candidacy of
+			// its own that fails a moment later clears the name again)
+			noteCommit(c, v.proposalHost, m.idx)
+		}
 		if armed && c != m.seenC && mu == v.glock {
 			_, all := stackClass()
 			if strings.Contains(all, "DoSelfCommit") || strings.Contains(all, "commandHandleCommitCommand") {
@@ -411,6 +510,14 @@ func runReplset(w *World) {
 			if live(m) {
 				v := m.node.sl.arbiterManager.voter
 				m.lastP, m.lastC, m.wasLd = v.proposalId, v.commitId, m.node.sl.state == STATE_LEADER
+				m.everLeader = m.wasLd
+			}
+		}
+		for _, m := range ms {
+			if live(m) {
+				if c := m.node.sl.arbiterManager.voter.commitId; c > cfgCommit {
+					cfgCommit = c // numbers handed out while the set was configured were not voted on
+				}
 			}
 		}
 		armed = true
@@ -542,6 +649,25 @@ func runReplset(w *World) {
 							snet.N.Partition(10*(a.idx+1)+i, 10*(b.idx+1)+j, false)
 						}
 					}
+					w.fault("heal")
+				case "split":
+					set := func(on bool) {
+						for _, a := range ms {
+							for _, b := range ms {
+								if a.idx < b.idx && (f.Group>>uint(a.idx))&1 != (f.Group>>uint(b.idx))&1 {
+									for i := 0; i < 10; i++ {
+										for j := 0; j < 10; j++ {
+											snet.N.Partition(10*(a.idx+1)+i, 10*(b.idx+1)+j, on)
+										}
+									}
+								}
+							}
+						}
+					}
+					set(true)
+					w.fault("split")
+					sleep(time.Duration(f.ForMs) * time.Millisecond)
+					set(false)
 					w.fault("heal")
 				case "isolate_leader":
 					l := leaderOf()
